@@ -22,7 +22,10 @@ FnCoverageDetect (detect_bedcov_columns whole, C09_source_detect_*).  Mutations 
                     `str(min_mapq)` -> `str(min_mapq + 1)`                            KILLED
   FnCoverageDetect  `if tabcount == 4:` -> `if tabcount == 5:`                        KILLED (source_detect_columns)
                     `+ fillers + ["basecount"]` -> `+ ["basecount"] + fillers`        KILLED
-                    `"gene", "basecount"]` -> `"name", "basecount"]` (4-tab return)   KILLED"""
+                    `"gene", "basecount"]` -> `"name", "basecount"]` (4-tab return)   KILLED
+  FnCoveragePileup  `ok_idx = spans > 0` -> `spans >= 0`                              KILLED (source_pileup_depth)
+                    `ok_idx = table["depth"] > 0` -> `>= 0`                           KILLED (source_pileup_log2)
+                    `/ spans[ok_idx]` -> `* spans[ok_idx]`                            KILLED"""
 import ast, os, sys
 
 
@@ -149,5 +152,19 @@ MODULES = {
                      ("firstline.count('\\t')", 'Z', 'tabs'),
                      ("[f'_{i}' for i in range(1, tabcount - 3)]", 'LS', 'filler_list')],
              ret='LS'),
+    ]),
+    # interval_coverages_pileup: the per-row depth / log2 code (fragment `spans = table.end - table.start` .. `table.loc[ok_idx,
+    # "log2"] = np.log2(table.loc[ok_idx, "depth"])`): zero-width / reversed bins keep depth 0.0, the others get basecount /
+    # span; log2 is NULL_LOG2_COVERAGE unless the depth is positive (np.log2 is the logarithm oracle).
+    # (Proofs/FnCoveragePileup.v: C09_source_pileup_depth / _log2 -- Model/Coverage.v pileup_depth / pileup_log2)
+    # mutations: `ok_idx = spans > 0` -> `spans >= 0` KILLED; `ok_idx = table["depth"] > 0` -> `>= 0` KILLED; `/ spans[ok_idx]` -> `* spans[ok_idx]` KILLED
+    'FnCoveragePileup': ('cnvlib/coverage.py', [
+        dict(name='interval_coverages_pileup', coq='fn_pileup_row',
+             py_params=['bed_fname', 'bam_fname', 'min_mapq', 'procs', 'fasta'],
+             fragment=dict(first='spans = table.end', last="table['log2'] = np.log2"),
+             returns=["table['depth']", "table['log2']"],
+             params=[('table.end', 'Z', 'end_'), ('table.start', 'Z', 'start'), ("table['basecount']", 'Z', 'basecount'),
+                     ('NULL_LOG2_COVERAGE', 'Q')],
+             ret=['Q', 'Q']),
     ]),
 }
